@@ -1518,6 +1518,8 @@ def main(ctx):
         'default subsites; the invariant mwf of multi-site graphs is a Prop and is not evaluated on implementation data',
         'C10 not modelled in Coq: infinite boundary conditions (construction; '
         'their graphs are denoted on an unrolled window), charges of virtual legs, group_sites/extract_segment (dense oracle only)',
+        'C10 termlist: a TermList stores no operator strings (documented); the sites between two operators of a term are read as JW when '
+        'an odd number of operators to their left anticommutes with the local JW, as identity otherwise',
         'local operator matrices and Jordan-Wigner flags are taken from tenpy.networks.site (property C12)',
     ]
     return ctx.finish(RULE, 'theorems of coq/Props/C10.v about the automaton model; model tied to MPOGraph.from_terms by rebuilding the '
